@@ -41,6 +41,9 @@ def star_stmt(kind, k):
     return s
 
 
+FIRST_LINE_DISABLE = __import__('re').compile(r'>>>\s*#\s*(DISABLE|UNSTABLE|FAILING|SCRIPT|SLOW_DOCTEST)', __import__('re').IGNORECASE)
+
+
 def gen_module(rng, idx):
     """-> (source, [(funcname, stmts, wants)])"""
     src = ['TRACE = []', gendoc.PRELUDE, '']
@@ -57,6 +60,10 @@ def gen_module(rng, idx):
         if rng.random() < 0.15:
             text = '>>> # xdoctest: +SKIP\n' + text if not text.startswith(('Summary', ' ')) and text.startswith('>>>') else text
         name = 'fn%d_%d' % (idx, j)
+        first_prompt = next((l.strip() for l in text.split('\n') if l.strip().startswith('>>>')), '')
+        # force-disabled by the documented rule: one of the legacy words in a comment on the FIRST line of the doctest
+        if FIRST_LINE_DISABLE.match(first_prompt):
+            continue
         src += ['def %s():' % name, '    r"""'] + ['    ' + l if l else l for l in text.split('\n')] + ['    """', '']
         docs.append((name, stmts, wants))
     return '\n'.join(src) + '\n', docs
@@ -156,10 +163,10 @@ def _worker(job):
         finally:
             sys.stdout.close()
             sys.stdout = so
-    enabled = [e for e in exs if not e.is_disabled()]
-    by_name = {d[0]: d for d in docs}
-    docs_enabled = [by_name[e.callname] for e in enabled if e.callname in by_name]
-    problems = check_dump(text, docs_enabled, modname)
+    enabled = [e for e in exs if not e.is_disabled()]      # the implementation's own view: used for the model request only
+    # by construction every generated doctest is enabled (none starts with a force-disable comment; comments with such
+    # words on later lines, +SKIP directives and fully skipped doctests do not disable)
+    problems = check_dump(text, docs, modname)
     # model request: header lines are the pyflakes oracle (read back from the real output)
     des = []
     funcs_text = text.split('\n\n\ndef ')
